@@ -44,6 +44,11 @@ def compile (P : X.Program) : Except CDiag Asm.Image := do
   let ds ← compileDirs P
   assembleDirs ds
 
+/-- The compiler with every uninitialised `Symbol::stackOffset` holding `j` (C11). -/
+def compileJ (j : Int) (P : X.Program) : Except CDiag Asm.Image := do
+  let s ← stagesJ j P
+  assembleDirs s.optimised
+
 /-- The bytes of the file `xcmp` writes. -/
 def compileFile (P : X.Program) : Except CDiag (List Byte) := do
   let img ← compile P
